@@ -388,9 +388,24 @@ public:
             m_blockIndex.back()->size() >= m_blockSize)
         {
             pushNewIndexBlock();
-        }
 
-        m_blockIndex.back()->push_back(value);
+            // If copying the value fails, don't leave an
+            // empty block at the end of the index.
+            try
+            {
+                m_blockIndex.back()->push_back(value);
+            }
+            catch(...)
+            {
+                popEmptyIndexBlock();
+
+                throw;
+            }
+        }
+        else
+        {
+            m_blockIndex.back()->push_back(value);
+        }
     }
 
     void
@@ -403,8 +418,7 @@ public:
 
         if (lastBlock.empty())
         {
-            m_freeBlockVector.push_back(&lastBlock);
-            m_blockIndex.pop_back();
+            popEmptyIndexBlock();
         }
     }
 
@@ -480,11 +494,22 @@ private:
 
         if (m_freeBlockVector.empty())
         {
-            XalanConstruct(
-                *m_memoryManager,
-                m_blockIndex.back(),
-                *m_memoryManager,
-                m_blockSize);
+            // If we can't create the block, don't leave
+            // a null pointer in the index.
+            try
+            {
+                XalanConstruct(
+                    *m_memoryManager,
+                    m_blockIndex.back(),
+                    *m_memoryManager,
+                    m_blockSize);
+            }
+            catch(...)
+            {
+                m_blockIndex.pop_back();
+
+                throw;
+            }
         }
         else
         {
@@ -496,6 +521,29 @@ private:
         }
 
         assert(m_blockIndex.back() != 0);
+    }
+
+    // Remove the empty block at the end of the index.  This is
+    // also called when cleaning up after an exception, so it must
+    // not allocate memory: if there's no room left in the vector of
+    // free blocks, destroy the block instead of keeping it.
+    void
+    popEmptyIndexBlock()
+    {
+        assert(m_blockIndex.empty() == false && m_blockIndex.back()->empty() == true);
+
+        BlockType* const    theBlock = m_blockIndex.back();
+
+        m_blockIndex.pop_back();
+
+        if (m_freeBlockVector.size() < m_freeBlockVector.capacity())
+        {
+            m_freeBlockVector.push_back(theBlock);
+        }
+        else
+        {
+            XalanDestroy(*m_memoryManager, *theBlock);
+        }
     }
 
     void
